@@ -17,7 +17,7 @@ checks = {
     text="All rows up to length 5 (7) over ASCII/2-byte/double-width/line characters, alone, forced into one span, in three-row documents and inside a box: every label character must be shown exactly once, in its own display cell. Plus every printable scalar U+00A1..U+3100 (and block ends above) followed by a label.",
     note=NOTE),
  "C05": dict(tech="bounded-exhaustive enumeration of box families and small grids on the real library; exact geometric prediction (completeness) and border-character oracle (soundness)",
-    text="Every box of 9 styles x sizes x offsets x interiors x side patterns must be exactly one predicted rect; every rect emitted for any grid of the soundness scopes must lie on border characters.",
+    text="Every box of 9 styles x sizes x offsets x interiors x side patterns must be exactly one predicted rect; every rect emitted for any grid of the soundness scopes must lie on border characters. Plus near-boxes (one-cell overhangs) at every size up to 128 x 70 cells.",
     note=NOTE + " One known finding (box-drawing rounded box of inner width 0)."),
  "C06": dict(tech="bounded-exhaustive enumeration of drawings x page offsets on the real library; metamorphic oracle (translated element multiset)",
     text="Every drawing of the enumerated scopes is converted at the origin and at each offset; all coordinates must move by exactly the shift and nothing else may change.",
